@@ -64,14 +64,19 @@ ExtSigs0 == {[params |-> ps, results |-> rs, use |-> "extend"] :
    directive style (no blank), a block comment, after a tab with trailing blanks; and where the text is NOT a setting: inside prose,
    in a comment detached by a blank line, in a trailing comment.  place: the function lives next to the converter, or in one of two
    different packages x1/ext, x2/ext that share the package name `ext` (doc comments are looked up per package).              *)
-DocLayouts == {"line", "directive", "block", "tab", "prose", "detached", "trailing"}
-NotSetting == {"prose", "detached", "trailing"}
+\* tabsep: a tab instead of the blank between the setting name and its value (`goverter:context<TAB>ctx`): the value is the text after
+\* the first *space*, so this line names the unknown setting "context\tctx" and is not the context setting
+DocLayouts == {"line", "directive", "block", "tab", "prose", "detached", "trailing", "tabsep"}
+NotSetting == {"prose", "detached", "trailing", "tabsep"}
 HasCtxDecl(s) == \E i \in DOMAIN s.params : s.params[i] = "ctxdecl"
-ExtSigs == {[params |-> s.params, results |-> s.results, use |-> "extend", layout |-> "line", place |-> pl] : s \in ExtSigs0, pl \in {"local", "x1", "x2", "regex"}}      \* regex: selected by a pattern (goverter:extend F12x?) instead of its name
+ExtSigs == {[params |-> s.params, results |-> s.results, use |-> "extend", layout |-> "line", place |-> pl] : s \in ExtSigs0, pl \in {"local", "x1", "x2", "regex", "typename"}}
+           \* regex: selected by a pattern (goverter:extend F12x?) instead of its name; typename: the name denotes a declared func *type*
+           \* (type F12 func(...) ...), not a function: it must be rejected whatever its signature
            \cup {[params |-> s.params, results |-> s.results, use |-> "extend", layout |-> l, place |-> "local"] : s \in {x \in ExtSigs0 : HasCtxDecl(x)}, l \in DocLayouts}
 \* what the parameter list means once the doc comment has been read: without the setting line the parameter is a plain one
 AsPlain(s) == [s EXCEPT !.params = [i \in DOMAIN s.params |-> IF s.params[i] = "ctxdecl" THEN "src2" ELSE s.params[i]]]
 Eff(s) == IF s.layout \in NotSetting THEN AsPlain(s) ELSE s
+ValidX(s) == s.place # "typename" /\ Valid(Eff(s))
 \* the reading under which the line is taken the wrong way round
 Misread(s) == IF s.layout \in NotSetting THEN s ELSE AsPlain(s)
 =============================================================================
